@@ -964,6 +964,18 @@ SELFTEST = [
     dict(id='seconds-of-day-in-signed-arithmetic', file='src/ace_time/LocalDateTime.h', regex=True,
          find=r'acetime_t seconds = \(acetime_t\) \(\(uint32_t\) epochSeconds\n\s+- \(uint32_t\) 86400 \* \(uint32_t\) days\);',
          replace='acetime_t seconds = epochSeconds - 86400 * days;', rule='R8', construct='LocalDateTime::forEpochSeconds'),
+    dict(id='remainder-from-truncating-quotient-silent', file='src/ace_time/LocalDateTime.h', regex=True,
+         find=r'acetime_t days = \(epochSeconds < 0\)\n[^;]*;\n(.|\n)*?acetime_t seconds = \(acetime_t\) \(\(uint32_t\) epochSeconds\n\s+- \(uint32_t\) 86400 \* \(uint32_t\) days\);',
+         replace='acetime_t days = epochSeconds / 86400;\n        acetime_t seconds = epochSeconds - 86400 * days;\n        if (seconds < 0) {\n          seconds += 86400;\n          days--;\n        }',
+         expect='silent'),
+    dict(id='remainder-with-another-factor', file='src/ace_time/LocalDateTime.h', regex=True,
+         find=r'acetime_t days = \(epochSeconds < 0\)\n[^;]*;\n(.|\n)*?acetime_t seconds = \(acetime_t\) \(\(uint32_t\) epochSeconds\n\s+- \(uint32_t\) 86400 \* \(uint32_t\) days\);',
+         replace='acetime_t days = epochSeconds / 86400;\n        acetime_t seconds = epochSeconds - 86401 * days;\n        if (seconds < 0) {\n          seconds += 86400;\n          days--;\n        }',
+         rule='R8', construct='LocalDateTime'),
+    dict(id='remainder-of-a-quotient-taken-before-the-shift', file='src/ace_time/LocalDateTime.h', regex=True,
+         find=r'acetime_t days = \(epochSeconds < 0\)\n[^;]*;\n(.|\n)*?acetime_t seconds = \(acetime_t\) \(\(uint32_t\) epochSeconds\n\s+- \(uint32_t\) 86400 \* \(uint32_t\) days\);',
+         replace='acetime_t days = epochSeconds / 86400;\n        if (epochSeconds < 0) days--;\n        acetime_t seconds = epochSeconds - 86400 * days;',
+         rule='R8', construct='LocalDateTime'),
     dict(id='offset-seconds-factor-too-large', file='src/ace_time/TimeOffset.h', find='return (int32_t) 60 * toMinutes();', replace='return (int32_t) 70000 * toMinutes();',
          rule='R8', construct='TimeOffset::toSeconds'),
     dict(id='time-period-seconds-spelling-silent', file='src/ace_time/TimePeriod.h', regex=True,
